@@ -171,6 +171,7 @@ Eval vm_compute in summary.
 
 
 META = {
+    "ready": True,
     "category": "proof",
     "technique": "Rocq proof over goq-translated Go source + differential translator validation",
     "text": "Six theorems (closed form min(initial*2^(n-1),max) over unbounded Z, non-negativity, <= max, monotone in faults, zero when disabled, window reset) proved for ALL int64 inputs over the Gallina definition that tools/goq regenerates from actor/pid.go on every run; the real Go functions are run on boundary-biased inputs and compared both with the property's closed form and with the generated definition.",
